@@ -325,6 +325,39 @@ fn changing_value_cases(rep: &mut Report) {
             }
         }
     }
+    // one long-lived roller whose pattern refers to the variable: every roll goes where the variable points at
+    // the time of the roll (unset: the reference stays as it is)
+    let sc = Scratch::new("c19roller");
+    std::env::remove_var(NAME);
+    let pattern = format!("{}/$ENV{{{}}}/arch.{{}}", sc.path.to_str().unwrap(), NAME);
+    if let Ok(roller) = FixedWindowRoller::builder().build(&pattern, 1) {
+        let history: [Option<&str>; 7] = [None, Some("one"), None, Some("two"), Some("two"), Some(""), Some("one")];
+        for (k, v) in history.iter().enumerate() {
+            match v {
+                Some(v) => std::env::set_var(NAME, v),
+                None => std::env::remove_var(NAME),
+            }
+            let active = sc.path.join("active.tmp");
+            let content = format!("roll {}", k);
+            let _ = std::fs::write(&active, &content);
+            rep.case_enumerated(true);
+            let r = trap::catch(|| roller.roll(&active).map_err(|e| e.to_string()));
+            let want_rel = match v {
+                Some(v) if v.is_empty() => "arch.0".to_owned(),
+                Some(v) => format!("{}/arch.0", v),
+                None => format!("$ENV{{{}}}/arch.0", NAME),
+            };
+            let got = std::fs::read_to_string(sc.path.join(&want_rel)).ok();
+            rep.count("locations_compared", 1);
+            rep.count("rolls_of_a_long_lived_roller_after_a_change_of_the_variable", 1);
+            if !matches!(r, Ok(Ok(()))) || got.as_deref() != Some(content.as_str()) {
+                rep.violation("C19:wrong-location:value-changed-since-an-earlier-expansion", json!({"input": format!("$ENV{{{}}}/arch.{{}}", NAME), "call_site": "long-lived roller",
+                    "history_of_the_variable": history[..=k].iter().map(|s| s.map(|x| format!("{:?}", x)).unwrap_or("unset".into())).collect::<Vec<_>>(),
+                    "expected_file": want_rel, "files_present": dir_files(&sc.path).keys().cloned().collect::<Vec<_>>(), "result": format!("{:?}", r.map_err(|p| p.message))}));
+                break;
+            }
+        }
+    }
     std::env::remove_var(NAME);
 }
 
